@@ -41,7 +41,15 @@ func c11Streams() []c11stream {
 		n string
 		m []byte
 	}{{"bad-version", badVersion}, {"unknown-template", unknownTmpl}, {"short-field", shortField}, {"bad-template", badTemplate}, {"length-10", tinyLen}}
-	out := []c11stream{{"valid[T,D,D]", valid}, {"valid[T,D]", valid[:2]}}
+	// a data set with 2 bytes of set padding (shorter than the shortest record, RFC 7011 3.3.1) and a
+	// template set carrying a second template record: the decoder legitimately leaves bytes unread
+	padded := append(append([]byte{}, valid[1]...), 0, 0)
+	padded[2], padded[3] = byte(len(padded)>>8), byte(len(padded))
+	padded[18], padded[19] = byte((len(padded)-16)>>8), byte(len(padded)-16)
+	t2 := append(append([]byte{}, valid[0]...), refcodec.TemplateBody(refcodec.Template{ID: 300, Fields: []refcodec.FieldSpec{{ID: 4, Len: 1}}})...)
+	t2[2], t2[3] = byte(len(t2)>>8), byte(len(t2))
+	t2[18], t2[19] = byte((len(t2)-16)>>8), byte(len(t2)-16)
+	out := []c11stream{{"valid[T,D,D]", valid}, {"valid[T,D]", valid[:2]}, {"valid[T,Dpadded,D]", [][]byte{valid[0], padded, valid[2]}}, {"valid[T+T,D,D]", [][]byte{t2, valid[1], valid[2]}}}
 	for _, b := range bads {
 		for pos := 0; pos <= 2; pos++ {
 			var ms [][]byte
@@ -64,7 +72,7 @@ func c11Cases(tier string) []c11case {
 			for a := 1; a < n; a++ {
 				cs = append(cs, c11case{Stream: si, Cuts: []int{a}, SegRead: seg, CloseAt: -1})
 			}
-			pairs := si == 0 || tier == "thorough" || (si >= 2 && (si-2)%3 == 1)
+			pairs := si == 0 || tier == "thorough" || (si >= 4 && (si-4)%3 == 1)
 			if pairs {
 				for a := 1; a < n; a++ {
 					for b := a + 1; b < n; b++ {
@@ -185,6 +193,9 @@ func runC11(tier, replay string) int {
 			if i%nsh != shard {
 				continue
 			}
+			if len(res.Problems) >= 3 {
+				break // counterexamples found: no need to finish the enumeration
+			}
 			sc := c11Scenario(c)
 			res.Cases++
 			if c.Explore {
@@ -261,7 +272,7 @@ func runC11(tier, replay string) int {
 	ev.Coverage = common.Coverage{
 		"states": tot.Cases, "transitions": tot.Steps, "traces_validated_against_impl": tot.Execs, "samples": samples,
 		"evaluations": tot.Execs, "distinct_nontrivial": tot.Cases,
-		"rule":       "17 byte streams (two valid ones; five kinds of undecodable message at each of three positions) x {no cut, every single cut, every pair of cuts (quick: for the valid stream and one position per bad kind; thorough: all)} x {reads return one segment, reads coalesce}, plus a peer close after every prefix, thorough: every triple on the two-message stream and all 2^19 segmentations of the first 20 bytes; each case is one execution of the real collector (Start() on the in-memory network, a second connection with a valid stream alongside) under the controlled scheduler's default schedule, and a subset is additionally explored with one scheduling delay; oracle: deliveries = the decodable prefix of the stream, decoded correctly, connection closed by the collector after the first undecodable message, the other connection complete. distinct_nontrivial = distinct (stream, segmentation, read mode) cases",
+		"rule":       "19 byte streams (four valid ones incl. a padded data set and a two-record template set; five kinds of undecodable message at each of three positions) x {no cut, every single cut, every pair of cuts (quick: for the valid stream and one position per bad kind; thorough: all)} x {reads return one segment, reads coalesce}, plus a peer close after every prefix, thorough: every triple on the two-message stream and all 2^19 segmentations of the first 20 bytes; each case is one execution of the real collector (Start() on the in-memory network, a second connection with a valid stream alongside) under the controlled scheduler's default schedule, and a subset is additionally explored with one scheduling delay; oracle: deliveries = the decodable prefix of the stream, decoded correctly, connection closed by the collector after the first undecodable message, the other connection complete. distinct_nontrivial = distinct (stream, segmentation, read mode) cases",
 		"exhaustive": true, "cases": tot.Cases, "distinct_observation_logs": len(tot.Outcomes),
 	}
 	ev.Assumptions = []string{"framing follows each message's own (correct) length field; after the first undecodable message nothing more is expected", "segment boundaries are exactly what a Read returns in segment mode; coalescing mode returns everything available"}
